@@ -23,7 +23,9 @@ THEOREMS = ["C01_fold_sound", "C01_fold_sound_root", "C01_fold_accepts", "C01_fo
             # needs (spec level); find_match's stack test covers the whole period / the source phrase of a subroutine;
             # the loop branch of apply_match keeps the song valid given that the stack analysis is right about the period
             "C01_fold_headroom", "C01_fold0_headroom", "C01_fold_budget_covers_period", "C01_sub_budget_covers_source",
-            "C01_src_stack_le_limit", "C01_fold_keeps_depth_partial", "C01_loop_pass_keeps_valid_partial"]
+            "C01_src_stack_le_limit", "C01_fold_keeps_depth_partial", "C01_loop_pass_keeps_valid_partial",
+            # repair of D28: analyze_stack marks the unused macro tracks after the loop over all tracks
+            "C01_analyzeStack_marks_after"]
 LEVEL = "proof"
 STREAM = "opt.final"
 CHUNK = 150
@@ -44,8 +46,12 @@ LEVEL_TEXT = ("see lean/Ctrmml/Properties/C01.lean: rewrite soundness over Spec/
               "skips included, passed stack_depth < max_loop_stack), C01_sub_budget_covers_source (every event of the phrase a subroutine is made from passed stack_depth < "
               "max_src_stack = the validator's 10 frames, C01_src_stack_le_limit), C01_fold_keeps_depth_partial / C01_loop_pass_keeps_valid_partial (the loop branch of apply_match / "
               "a whole loop-fold pass keeps every track valid - no validator run needed - under the extra hypothesis StackSoundAt: the stack analysis is right that the period has "
-              "one frame of headroom; the hypothesis cannot be dropped: Ex2.D28_witness, Ex2.stackSound_needed); NOT proved: termination without the bound on the number of events "
-              "(sub_id wrap, C01_optimize_terminates_statement), that analyze_stack's lists are sound (C01_fold_keeps_depth_full_statement; false as it stands: finding D28) and "
+              "one frame of headroom; a map that underestimates a base usage breaks the fold: Ex2.D28_witness, Ex2.stackSound_needed - the answer of analyze_stack before repo 6fc8560); "
+              "stack analysis (repair of D28, repo 6fc8560: the unused macro tracks are marked base_usage = 100 AFTER the loop over all tracks, so a later unused caller raises the base "
+              "usage of the chain below it): C01_analyzeStack_marks_after (a normal return is the map of the first loop with base_usage = 100 on exactly the collected unused roots), "
+              "Ex2.D28_regression (the repaired answer on the D28 song fails the stack test, nothing is folded); NOT proved: termination without the bound on the number of events "
+              "(sub_id wrap, C01_optimize_terminates_statement), that analyze_stack's lists are sound (C01_fold_keeps_depth_full_statement: StackSoundAt from analyzeStack song = .ok m; "
+              "no counterexample known since the repair of D28) and "
               "the depth side of subroutine extraction beyond the budget test; every generated valid song is run "
               "through the REAL optimiser and the spec expander (perf) compares, for every original track, the played events with durations, the total length and the loop-point time "
               "before and after, and requires normal termination (per-case timeout), a validating result and loop counts within 0..255 whenever the input's are, for aggressiveness "
@@ -55,14 +61,15 @@ LEVEL_NOTE = ("Trusted: Lean kernel; Spec/Tree + Spec/Expand (meaning of loops/b
               "< 32767, no explicit END event, LOOP_BREAKs without duration, tracks < 32767 events, subroutine ids stay below 32768; of C01_optimize_terminates_partial additionally: min_score >= 0 "
               "(for a negative threshold the pass loop does not end: a pass with score 0 changes nothing), int16_t call params (the model keeps params as unbounded Int: "
               "Ex2.analyzeStack_fuel_artefact), initialSubId + events < 32767.  That no intermediate song exceeds the depth limit is a theorem for loop-fold passes only under StackSoundAt "
-              "(soundness of analyze_stack's lists for the folded period: not proved, finding D28 is a counterexample with unused macro tracks) and is otherwise decided per case by "
-              "the oracle: every pass of every generated case must leave a validating song (family d18-budget walks the stack budget on both sides of its limits).  "
+              "(soundness of analyze_stack's lists for the folded period: not proved; finding D28 was a counterexample with unused macro tracks, repaired in repo 6fc8560) and is otherwise "
+              "decided per case by the oracle: every pass of every generated case must leave a validating song (family d18-budget walks the stack budget on both sides of its limits, "
+              "family d28-chain the chains of unused macro tracks in every id order up to the validator's 10 frames).  "
               "The list-based model is quartic in the length of a run of equal phrases: the 1000-repetition cases of the D2 family are sent as `optx` (same harness handler), the model does "
               "not answer them and only the spec oracle judges the real optimiser there (reported in a note).")
 RULE = ("motif-repetition songs (A^k, A^k A[0..j), motifs with nested loops, breaks (also two breaks in one loop) and calls, loop point at any depth-0 position, 1..4 channel tracks sharing "
         "motifs, tracks > 15, existing tracks >= 15000 (called or not)) + straddle family (a phrase and its repetition on the two sides of a break, loop bracket, loop point or call) "
         "x min_score in 0..10 + D18 family (phrase, material that nests j loops - directly, in a called subroutine, or with the folded track called inside ctx loops - , phrase again, "
-        "for every ctx + j the 10-frame limit allows; a phrase inside j loops and again outside / in another track / called) + D2 family (a phrase repeated 254..257, 300, 509..511, 1000 times back to back, with and without remainder, inside an outer loop, in two tracks) + all tracks over a 4-symbol alphabet up to length 6 (8 thorough); non-trivial = optimiser changed the song; distinct by request")
+        "for every ctx + j the 10-frame limit allows; a phrase inside j loops and again outside / in another track / called) + D28 family (chains of 1..10 unused macro tracks calling each other with descending / ascending / zigzag ids, the phrase at the bottom, in the middle, or around the call; also shared with a channel track) + D2 family (a phrase repeated 254..257, 300, 509..511, 1000 times back to back, with and without remainder, inside an outer loop, in two tracks) + all tracks over a 4-symbol alphabet up to length 6 (8 thorough); non-trivial = optimiser changed the song; distinct by request")
 EXPLANATION = "spec expander on the real optimiser's output vs on its input"
 ASSUMPTIONS = ["input songs validate (checked by the spec before judging)"]
 
@@ -77,7 +84,8 @@ CORPUS = [
     "opt 10 T0:2.48.12.0,2.50.12.0,2.52.12.0," + ",".join(["4.0.0.0"] * 10) + ",2.55.12.0," + ",".join(["6.2.0.0"] * 10) + ",2.48.12.0,2.50.12.0,2.52.12.0",
     # D18, subroutine half (repaired): the source phrase `c [d]2 e f` sits inside nine loops, its copy outside
     "opt 0 T0:" + ",".join(["4.0.0.0"] * 9) + ",2.48.12.0,4.0.0.0,2.50.12.0,6.2.0.0,2.52.12.0,2.53.12.0," + ",".join(["6.2.0.0"] * 9) + ",2.48.12.0,4.0.0.0,2.50.12.0,6.2.0.0,2.52.12.0,2.53.12.0",
-    # D28 (known): ten unused macro tracks calling each other downwards; the stack analysis takes *30 to be one frame deep
+    # D28 (repaired): ten unused macro tracks calling each other downwards; the stack analysis took *30 to be one frame deep;
+    # the whole family is `d28_cases`
     "opt 0 T20:8.30.0.0 " + " ".join("T%d:8.%d.0.0" % (i, i - 1) for i in range(21, 30)) + " T30:" + ",".join(["2.48.12.0", "2.50.12.0", "2.52.12.0"] * 3),
     "opt 10 T0:2.1.1.0,2.2.1.0,2.3.1.0,2.1.1.0,2.2.1.0,2.3.1.0,2.1.1.0,2.2.1.0,2.3.1.0,2.1.1.0,2.2.1.0",
     "opt 0 T0:2.1.1.0,2.2.1.0,2.1.1.0,2.2.1.0,2.1.1.0 T1:2.1.1.0,2.2.1.0,2.1.1.0,2.2.1.0",
@@ -261,6 +269,56 @@ def d18_cases(T, tier):
                 yield case("sub-base", {0: [LS] * j + [J(100)] + [LE()] * j, 1: ph + [N(9)], 100: ph + [N(8)] + ph}, 0)
 
 
+def d28_cases(T, tier):
+    """Repair of D28: chains of unused macro tracks (ids > 15 that no channel track reaches).  k calling tracks, each calling
+    the next one; the ids descend along the calls (`down`, the shape of the finding: the callee was analysed - and marked
+    unused - before its caller), ascend (`up`) or zigzag (`mix`).  The phrase `A A A` sits in the track at the bottom of the
+    chain, in a track in the middle (followed by the call of the rest of the chain), or the middle track is `(A call)x3` (the
+    call inside the folded period).  `shared`: a channel track calls the phrase track as well.  The chain is as deep as the
+    10-frame limit of the validator allows; the fold is admitted while base usage + usage < `max_loop_stack`.  Every case must
+    return normally with a validating result; model and implementation must agree on where the line is."""
+    N = lambda k, d=12: (T["NOTE"], 36 + k, d, 0)
+    J = lambda t: (T["JUMP"], t, 0, 0)
+    quick = tier == "quick"
+    A = [N(0), N(1), N(2)]
+    def case(name, song, score=0):
+        return Case("opt %d %s" % (score, songgen.render(song)), ("d28", name), "d28-chain")
+    def ids(order, n):
+        """ids of the n tracks of the chain, in call order (the first calls the second, ...)"""
+        base = list(range(20, 20 + n))
+        if order == "up":
+            return base
+        if order == "down":
+            return base[::-1]
+        lo, hi, out = 0, n - 1, []
+        while lo <= hi:
+            out.append(base[hi]); hi -= 1
+            if lo <= hi:
+                out.append(base[lo]); lo += 1
+        return out
+    for k in ((1, 2, 4, 5, 6, 9, 10) if quick else range(1, 11)):
+        for order in ("down", "up", "mix"):
+            ch = ids(order, k + 1)          # k callers + the track at the bottom
+            chain = {ch[i]: [J(ch[i + 1])] for i in range(k)}
+            # the phrase at the bottom of the chain (k = 10, down: the recorded finding)
+            song = dict(chain); song[ch[k]] = A * 3; song[0] = [N(5)]
+            yield case("bottom-" + order, song)
+            if not quick or k in (1, 5, 10):
+                song = dict(chain); song[ch[k]] = A * 3; song[0] = [N(5), J(ch[k])]
+                yield case("bottom-shared-" + order, song)
+                song = dict(chain); song[ch[k]] = A * 3 + [N(7)]; song[0] = A * 3
+                yield case("bottom-channel-" + order, song, 10 if k % 2 else 0)
+            # the phrase in the middle: track number `mid` of the chain plays it, then calls on
+            for mid in sorted({0, k // 2, k - 1}):
+                song = dict(chain); song[ch[k]] = [N(8)]; song[0] = [N(5)]
+                song[ch[mid]] = A * 3 + chain[ch[mid]]
+                yield case("middle-" + order, song)
+                if not quick or mid == k // 2:
+                    song = dict(chain); song[ch[k]] = [N(8)]; song[0] = [N(5)]
+                    song[ch[mid]] = (A + chain[ch[mid]]) * 3
+                    yield case("middle-call-" + order, song)
+
+
 def has_break2(flat, T):
     """two LOOP_BREAKs directly in one loop body (the `[a / b / c]2` shape)"""
     stack = []
@@ -310,6 +368,8 @@ def _cases(rng, tier):
     for c in straddle_cases(T, tier):
         yield c
     for c in d18_cases(T, tier):
+        yield c
+    for c in d28_cases(T, tier):
         yield c
     n = 500 if tier == "quick" else 8000
     scores = list(range(11))
@@ -375,30 +435,12 @@ def judge_notes(cases, impl, judge):
         yield "%d cases above the size bound of the optimiser model: decided by the spec oracle on the implementation's answer only" % SIZE_LIMIT["n"]
 
 
-def unused_macro_chain(req):
-    """the shape of finding D28: a macro track (id > 15) that no channel track reaches calls another such track with a
-    smaller id (analyze_stack has already marked the callee unused, base_usage = 100, and does not analyse it again)"""
-    T = songgen.event_types()
-    song = songgen.parse_request_song(req)
-    calls = {t: {e[1] & 0xffff for e in evs if e[0] == T["JUMP"]} for t, evs in song.items()}
-    used, todo = set(), [t for t in song if t <= 15]
-    while todo:
-        t = todo.pop()
-        if t in used or t not in song:
-            continue
-        used.add(t)
-        todo.extend(calls[t])
-    return any(t > 15 and t not in used and any(15 < c < t and c not in used and c in song for c in calls[t]) for t in song)
-
-
 def finding_key(case, impl, judge):
     if impl.startswith("crash") or impl == "timeout" or impl.startswith("uncaught"):
         m = re.search(r"(\w+\.cpp:\d+)", impl)
         return "crash:" + (m.group(1) if m else impl.split(" ")[0])
     m = re.search(r"result=(threw|exc):(\S+)", impl)
     if m:
-        if m.group(2).startswith("stack_overflow") and unused_macro_chain(case.req):
-            return "d28:unused-macro-chain"
         return "throws:" + m.group(2)[:40]
     if "performance changed" in judge: return "performance-changed"
     if "length changed" in judge: return "length-changed"
